@@ -49,6 +49,23 @@ def r14_1(ctx: Ctx, cg: CallGraph, cc: ColourContext) -> list[str]:
         g, sets, clears, weak = cc.info(fi)
         if not sets and not weak:
             continue
+        if fi.name == "__enter__" and fi.cls:
+            # one half of a class-based context manager: the with protocol pairs it with __exit__, which must clear
+            ex = pm.funcs.get(f"{fi.cls}.__exit__")
+            if ex is not None:
+                gx, _sx, clx, _wx = cc.info(ex)
+                cleared = bool(clx) and all(gx.must_pass(s_, clx, [gx.exit], exceptional=False) for s_ in gx.entry.succ)
+                swallows = any(isinstance(r, ast.Return) and r.value is not None and not (isinstance(r.value, ast.Constant) and r.value.value in (False, None))
+                               for r in walk_no_nested(ex.node))
+                n += 1
+                ctx.instance("R14.1", fi.where(), f"{fi.cls}: class-based context manager; __enter__ establishes the context, __exit__ clears it on every path: {cleared}")
+                if not cleared:
+                    leaks.append(f"{fi.cls}.__exit__")
+                    ctx.violation("R14.1", f"{fi.cls}.__exit__", "context manager does not clear", ex.where(),
+                                  f"{fi.cls}: __enter__ establishes the colour context but __exit__ does not clear it on every path")
+                if swallows:
+                    ctx.gap("R14.1", f"{fi.cls}.__exit__ may swallow exceptions (returns a value other than False/None)")
+                continue
         live = g.reachable(g.entry)
         for nd in sets + weak:
             sc = next((c for part in own_parts(nd) for c in ast.walk(part) if isinstance(c, ast.Call) and
